@@ -11,7 +11,7 @@ Part C  include resolution over generated directory trees (includer's dir, -I d1
 Part D  re-inclusion shortcuts: file shapes that do / do not qualify as guarded, included 2-3 times.
 Part E  -include / -D / -U option orders against the same directives written in the file.
 """
-import itertools, os, re, shutil
+import itertools, os, re, shutil, time
 from vlib import core
 from models import c10_model as M
 
@@ -19,11 +19,14 @@ LEVEL = "model_checking"
 BUDGET = {"quick": 240, "thorough": 1700}
 
 TOK = re.compile(r"[A-Za-z_][A-Za-z0-9_]*|\d+|\S")
+# `# 12 "file"` / `#line 12` lines are not tokens of the program: a chibicc that starts to emit them stays comparable
+LINEMARK = re.compile(r'^[ \t]*#[ \t]*(line[ \t]+)?\d+([ \t]+"[^"\n]*"[ \t\d]*)?[ \t]*$', re.M)
+CMP = "python3 $VERIF/harness/c10_cmp.py got.txt expected.txt || exit 1"
 GCC = ["gcc", "-E", "-P", "-w", "-nostdinc"]
 
 
 def lex(s):
-    return TOK.findall(s)
+    return TOK.findall(LINEMARK.sub("", s))
 
 
 def cc_E(chibicc, src, opts=(), cwd=None, limits=False):
@@ -116,11 +119,10 @@ def a_classify(seq, exp, st, got):
 
 
 def a_task(args):
-    chibicc, wd, prefixes, n, maxdepth, with_te, need_te, explicit = args
+    chibicc, wd, prefixes, n, maxdepth, syms, need, explicit, deadline = args
     os.makedirs(wd, exist_ok=True)
-    syms = M.symbols(with_te=with_te)
     res = {"traces": 0, "runs": 0, "judged": 0, "disagree": 0, "nonempty": 0, "viol": {}, "trans": set(),
-           "states": set(), "disagree_ex": None, "chain_diff": 0}
+           "states": set(), "disagree_ex": None, "chain_diff": 0, "cut": 0}
 
     confirmed = {}
 
@@ -172,7 +174,7 @@ def a_task(args):
         if explicit is not None:
             yield from explicit
         for pre in prefixes:
-            yield from M.enumerate_sequences(pre, n, maxdepth, syms, need_te=need_te)
+            yield from M.enumerate_sequences(pre, n, maxdepth, syms, need=need)
 
     batch = []
     if True:
@@ -186,37 +188,46 @@ def a_task(args):
             if len(batch) >= A_BATCH:
                 flush(batch)
                 batch = []
+                if time.time() > deadline:
+                    res["cut"] = 1
+                    break
     flush(batch)
     return res
 
 
-A_REPLAY = """$CHIBICC -cc1 -E -cc1-input case.c case.c > got.txt 2> err.txt || exit 1
-python3 - <<'EOF' || exit 1
-import re,sys
-t = re.findall(r"[A-Za-z_][A-Za-z0-9_]*|\\d+|\\S", open("got.txt").read())
-e = open("expected.txt").read().split()
-sys.exit(0 if t == e else 1)
-EOF
-exit 0"""
+A_REPLAY = "$CHIBICC -cc1 -E -cc1-input case.c case.c > got.txt 2> err.txt || exit 1\n" + CMP + "\nexit 0"
 
 
-def part_a(ctx, n, n_te, cover_k, maxdepth=3):
-    total_states, total_trans = M.model_graph(maxdepth, M.symbols(with_te=True))
+def part_a(ctx, n, n_nojunk, n_te, n_dead, cover_k, maxdepth=3):
+    everything = M.symbols(True) + M.SKIPPED_ONLY
+    total_states, total_trans = M.model_graph(maxdepth, everything)
+    # the two models (state machine / textual interpreter) are independent implementations: they must agree
+    nself = 0
+    for seq in M.enumerate_sequences((), 3, maxdepth, everything):
+        txt, exp = M.render_case(seq)
+        if M.Cpp({"/m.c": A_PROLOG + txt}, []).run("/m.c") != exp:
+            raise core.HarnessError("models/c10_model.py: CondMachine and Cpp disagree on\n" + txt)
+        nself += 1
+    ctx.cover(a_model_selfcheck_sequences=nself)
     agg = {"traces": 0, "runs": 0, "judged": 0, "disagree": 0, "nonempty": 0, "chain_diff": 0}
     trans, states = set(), set()
     done = []
-    plan = [("cover", True, False, cover_k), ("no-te", False, False, n), ("te", True, True, n_te)]
-    for label, with_te, need_te, nn in plan:
+    plan = [("cover", everything, None, cover_k), ("full-alphabet-without-te", M.symbols(False), None, n),
+            ("with-te", M.symbols(True), {("te",)}, n_te),
+            ("with-lines-valid-only-when-skipped", M.symbols_dead(), set(M.SKIPPED_ONLY), n_dead)]
+    if n_nojunk > n:
+        plan.append(("no-junk-no-te", M.symbols(False, junk=False), None, n_nojunk))
+    for label, syms, need, nn in plan:
         if ctx.out_of_time(reserve=20):
             ctx.incomplete("part A: stopped before sub-enumeration %s; finished: %s" % (label, done))
             break
-        syms = M.symbols(with_te=with_te)
         ntask = core.NPROC * 4
+        dl = ctx.deadline - 12
         if label == "cover":
             # transition cover of the whole model closure (nesting <= maxdepth, any trace length)
             seqs = [s for k in range(1, nn + 1) for s in M.transition_cover(maxdepth, syms, k)]
-            tasks = [(ctx.chibicc, os.path.join(ctx.work, "a_cover_%d" % i), [], 0, maxdepth, True, False,
-                      seqs[i::ntask]) for i in range(ntask) if seqs[i::ntask]]
+            tasks = [(ctx.chibicc, os.path.join(ctx.work, "a_cover_%d" % i), [], 0, maxdepth, syms, None,
+                      seqs[i::ntask], dl) for i in range(ntask) if seqs[i::ntask]]
         else:
             plen = min(2, nn)
             shorter = [s for s in M.enumerate_sequences((), plen - 1, maxdepth, syms)] if plen > 1 else []
@@ -225,13 +236,16 @@ def part_a(ctx, n, n_te, cover_k, maxdepth=3):
             rot = ctx.seed % max(1, len(prefixes))
             prefixes = prefixes[rot:] + prefixes[:rot]
             tasks = [(ctx.chibicc, os.path.join(ctx.work, "a_%s_%d" % (label, i)), prefixes[i::ntask], nn, maxdepth,
-                      with_te, need_te, None) for i in range(ntask) if prefixes[i::ntask]]
+                      syms, need, None, dl) for i in range(ntask) if prefixes[i::ntask]]
             # the sequences shorter than the prefix length
-            short = [s for s in shorter if (not need_te or any(x[0] == "te" for x in s))]
+            short = [s for s in shorter if (not need or any(x in need for x in s))]
             if short:
-                tasks.append((ctx.chibicc, os.path.join(ctx.work, "a_%s_short" % label), [], 0, maxdepth, with_te,
-                              need_te, short))
+                tasks.append((ctx.chibicc, os.path.join(ctx.work, "a_%s_short" % label), [], 0, maxdepth, syms,
+                              need, short, dl))
         results = core.pmap(a_task, tasks)
+        if any(r["cut"] for r in results):
+            ctx.incomplete("part A: deadline reached inside sub-enumeration %s (%d sequences replayed); finished: %s"
+                           % (label, sum(r["traces"] for r in results), done))
         for r in results:
             for k in agg:
                 agg[k] += r[k]
@@ -250,7 +264,8 @@ def part_a(ctx, n, n_te, cover_k, maxdepth=3):
                               replay=A_REPLAY)
                 for _ in range(cnt - 1):
                     ctx.violation("C10|cond|" + cls, "")
-        done.append("%s %s%d" % (label, "k<=" if label == "cover" else "n<=", nn))
+        if not any(r["cut"] for r in results):
+            done.append("%s %s%d" % (label, "k<=" if label == "cover" else "n<=", nn))
         if label == "cover" and (len(states) != total_states or len(trans) != total_trans):
             raise core.HarnessError("transition cover incomplete: %d/%d states %d/%d transitions"
                                     % (len(states), total_states, len(trans), total_trans))
@@ -377,10 +392,11 @@ def b_classify(exp, st, got):
 
 
 def b_task(args):
-    chibicc, wd, exprs = args
+    chibicc, wd, exprs, deadline = args
     os.makedirs(wd, exist_ok=True)
     res = {"n": 0, "undef": 0, "disagree": 0, "ref_rejected": 0, "judged": 0, "viol": {}, "outcomes": set(),
-           "disagree_ex": None}
+           "disagree_ex": None, "cut": 0}
+    confirmed = {}
     cases = []
     for e in exprs:
         res["n"] += 1
@@ -392,6 +408,9 @@ def b_task(args):
         txt, exp = b_render(e, v, u)
         cases.append((e, txt, exp))
     for batch in core.chunks(cases, B_BATCH):
+        if time.time() > deadline:
+            res["cut"] = 1
+            break
         texts = [b[1] for b in batch]
         r_c = run_batch(lambda s, o, c: cc_E(chibicc, s, o, c), wd, texts, prolog=B_PROLOG)
         r_g = run_batch(lambda s, o, c: gcc_E(s, o, c), wd, texts, prolog=B_PROLOG)
@@ -408,11 +427,17 @@ def b_task(args):
             res["outcomes"].add(tuple(exp))
             if sc == 0 and tc == exp:
                 continue
+            pre = shape(e) + "|" + b_classify(exp, sc, tc) if sc == 0 else None
+            if pre is not None and confirmed.get(pre, 0) >= 2:
+                res["viol"][pre][0] += 1
+                continue
             (sa, ta, ea), = run_batch(lambda s, o, c: cc_E(chibicc, s, o, c), wd, [txt], prolog=B_PROLOG, name="alone.c")
             if sa == 0 and ta == exp:
                 cls = "chained-differs-from-alone"
             else:
                 cls = shape(e) + "|" + b_classify(exp, sa, ta)
+                if cls == pre:
+                    confirmed[pre] = confirmed.get(pre, 0) + 1
             v = res["viol"].setdefault(cls, [0, None])
             v[0] += 1
             if v[1] is None or len(txt) < len(v[1][0]):
@@ -426,13 +451,15 @@ B_REPLAY = A_REPLAY
 def part_b(ctx):
     exprs = b_exprs(ctx.tier)
     ntask = core.NPROC * 4
-    tasks = [(ctx.chibicc, os.path.join(ctx.work, "b_%d" % i), exprs[i::ntask]) for i in range(ntask)]
+    tasks = [(ctx.chibicc, os.path.join(ctx.work, "b_%d" % i), exprs[i::ntask], ctx.deadline - 12) for i in range(ntask)]
     agg = {"n": 0, "undef": 0, "disagree": 0, "ref_rejected": 0, "judged": 0}
     outcomes = set()
     dis = None
     for r in core.pmap(b_task, tasks):
         for k in agg:
             agg[k] += r[k]
+        if r["cut"] and ctx.exhaustive:
+            ctx.incomplete("part B: deadline reached; expressions judged so far are reported")
         outcomes |= r["outcomes"]
         dis = dis or r["disagree_ex"]
         for cls, (cnt, ex) in sorted(r["viol"].items()):
@@ -454,10 +481,601 @@ def part_b(ctx):
     ctx.sample({"part": "B", "expr": M.etext(e), "model": list(M.ev(e)), "rendering": b_render(e, *M.ev(e))[0]})
 
 
+# =====================================================================================================
+# Part C: include resolution
+# =====================================================================================================
+LOCS = ["cur", "d1", "d2", "sys", "d3"]
+LOCDIR = {"cur": "src", "d1": "d1", "d2": "d2", "sys": "sysroot/include", "d3": "d3"}
+C_INNER = ["none", "next<>", 'next""', "g+next<>"]
+C_MAIN = ["one", "twice", "g-then-one", "one-g-one"]
+C_FORMS = ['"h.h"', "<h.h>", "HQ", "HA", '"h.h" JUNK', "<h.h> JUNK"]
+
+
+def c_header(loc, inner_line):
+    return ("#ifdef IN_%s\nR_%s\n#else\n#define IN_%s\nB_%s\n%sE_%s\n#undef IN_%s\n#endif\n"
+            % (loc, loc, loc, loc, inner_line, loc, loc))
+
+
+def c_files(subset, inner, chain_locs, gpos):
+    """-> {relative path: text} of all headers for one tree. A copy chains on with #include_next only when the model
+    finds a later copy (a failing #include_next would make the unit invalid)."""
+    files = {}
+    for loc in subset:
+        line = ""
+        if inner != "none":
+            later = chain_locs if loc == "cur" else chain_locs[chain_locs.index(loc) + 1:]
+            if any(l in subset for l in later):
+                line = "#include_next %s\n" % ("<h.h>" if "<>" in inner else '"h.h"')
+                if inner.startswith("g+") and gpos:
+                    line = "#include <g.h>\n" + line
+        files[LOCDIR[loc] + "/h.h"] = c_header(loc, line)
+    if gpos:
+        files[LOCDIR[gpos] + "/g.h"] = "G_%s\n" % gpos
+    return files
+
+
+def c_main(shape, form):
+    inc = "#include %s\n" % form
+    g = "#include <g.h>\n"
+    body = {"one": inc, "twice": inc + "M1\n" + inc, "g-then-one": g + "M1\n" + inc,
+            "one-g-one": inc + "M1\n" + g + "M2\n" + inc}[shape]
+    return '#define HQ "h.h"\n#define HA <h.h>\nM0\n' + body + "M9\n"
+
+
+def c_cases(tier):
+    """(subset, inner, iorder, gpos, main shape, form, idirafter first?, separate -I arg?)"""
+    subsets = [tuple(l for i, l in enumerate(LOCS) if m >> i & 1) for m in range(1, 32)]
+    full = tier != "quick"
+    for sub in subsets:
+        for inner in C_INNER:
+            for iorder in (("d1", "d2"), ("d2", "d1")):
+                for gpos in ((None, "d1", "d2", "d3") if full else (None, "d2")):
+                    if inner.startswith("g+") and not gpos:
+                        continue
+                    for shape in C_MAIN:
+                        uses_g = shape in ("g-then-one", "one-g-one")
+                        if uses_g and not gpos:
+                            continue
+                        if gpos and not uses_g and not inner.startswith("g+"):
+                            continue
+                        for form in C_FORMS:
+                            if form not in C_FORMS[:2] and not (full or shape == "one"):
+                                continue
+                            for after_first in (False, True):
+                                for sep in ((False, True) if (full or shape == "one") else (False,)):
+                                    yield (sub, inner, iorder, gpos, shape, form, after_first, sep)
+
+
+def c_options(iorder, after_first, sep, for_gcc):
+    o = []
+    for d in iorder:
+        o += ["-I", d] if sep else ["-I" + d]
+    a = ["-idirafter", "d3"]
+    o = a + o if after_first else o + a
+    if for_gcc:
+        o += ["-isystem", "sysroot/include"]
+    return o
+
+
+def c_dirclass(path, chain_locs):
+    for loc, d in LOCDIR.items():
+        if path.startswith(d + "/"):
+            if loc in ("d1", "d2"):
+                return "I%d" % (chain_locs.index(loc) + 1)
+            return {"cur": "includer-dir", "sys": "system", "d3": "idirafter"}[loc]
+    return "?"
+
+
+def c_tokclass(t, chain_locs):
+    if t is None:
+        return "nothing"
+    if t[:2] in ("B_", "E_", "G_", "R_"):
+        loc = t[2:]
+        if loc in LOCDIR:
+            k = c_dirclass(LOCDIR[loc] + "/", chain_locs)
+            return {"B_": "", "E_": "end-of-", "G_": "g.h-in-", "R_": "re-entered-"}[t[:2]] + k
+    return "main-text" if t[0] == "M" else t
+
+
+def c_task(args):
+    chibicc, wd, cases = args
+    res = {"n": 0, "judged": 0, "disagree": 0, "ref_rejected": 0, "undef": 0, "viol": {}, "disagree_ex": None,
+           "outcomes": set(), "runs": 0}
+    last_tree = None
+    files = {}
+    for case in cases:
+        sub, inner, iorder, gpos, shape, form, after_first, sep = case
+        chain_locs = list(iorder) + ["sys", "d3"]
+        tree_key = (sub, inner, iorder, gpos)
+        if tree_key != last_tree:
+            shutil.rmtree(wd, ignore_errors=True)
+            for d in LOCDIR.values():
+                os.makedirs(os.path.join(wd, d))
+            os.symlink(chibicc, os.path.join(wd, "sysroot/chibicc"))
+            files = c_files(sub, inner, chain_locs, gpos)
+            for rel, txt in files.items():
+                with open(os.path.join(wd, rel), "w") as f:
+                    f.write(txt)
+            last_tree = tree_key
+        main = c_main(shape, form)
+        with open(os.path.join(wd, "src/main.c"), "w") as f:
+            f.write(main)
+        res["n"] += 1
+        allf = {"/" + k: v for k, v in files.items()}
+        allf["/src/main.c"] = main
+        m = M.Cpp(allf, ["/" + LOCDIR[l] for l in chain_locs])
+        try:
+            exp = m.run("/src/main.c")
+        except (M.Undef, M.Reject):
+            res["undef"] += 1
+            continue
+        sg, og, eg = core.run_limited(GCC + c_options(iorder, after_first, sep, True) + ["src/main.c"], cwd=wd, timeout=20)
+        if sg != 0:
+            res["ref_rejected"] += 1
+            continue
+        if lex(og) != exp:
+            res["disagree"] += 1
+            res["disagree_ex"] = res["disagree_ex"] or (case, exp, lex(og))
+            continue
+        res["judged"] += 1
+        res["outcomes"].add(tuple(exp))
+        argv = (["sysroot/chibicc", "-cc1", "-E"] + c_options(iorder, after_first, sep, False)
+                + ["-cc1-input", "src/main.c", "src/main.c"])
+        sc, oc, ec = core.run_limited(argv, cwd=wd, timeout=20)     # headers carry re-entry guards: no unbounded recursion
+        res["runs"] += 1
+        got = lex(oc) if sc == 0 else None
+        if got == exp:
+            continue
+        # classify by the first divergence and the directive responsible for the expected token there
+        if got is None:
+            dev = "crash" if isinstance(sc, int) and sc < 0 else ("timeout" if sc == "timeout" else "rejected")
+            evs = m.events
+            kinds = {e[0] for e in evs}
+            dirs = {c_dirclass(e[3][1:], chain_locs) for e in evs}
+            sig = "%s|uses=%s|%s" % (dev, ",".join(sorted(kinds)),
+                                     "needs-idirafter" if "idirafter" in dirs else "needs=" + ",".join(sorted(dirs)))
+        else:
+            i = next((j for j in range(min(len(exp), len(got))) if exp[j] != got[j]), min(len(exp), len(got)))
+            dev = "got=" + c_tokclass(got[i] if i < len(got) else None, chain_locs)
+            evs = [e for e in m.events if e[5] <= i]
+            e = evs[-1] if evs else None
+            want = c_tokclass(exp[i] if i < len(exp) else None, chain_locs)
+            if e:
+                nth = "first-lookup" if e is m.events[0] else "later-lookup"
+                sig = "#%s%s|%s|want=%s|%s" % (e[0], '""' if e[1] else "<>", nth, want, dev)
+            else:
+                sig = "main|want=%s|%s" % (want, dev)
+        if sep:
+            sig += "|-I<space>dir"
+        v = res["viol"].setdefault(sig, [0, None])
+        v[0] += 1
+        size = sum(len(t) for t in files.values()) + len(main)
+        if v[1] is None or size < v[1][0]:
+            v[1] = (size, dict(files), main, c_options(iorder, after_first, sep, False), exp, got, str(sc), ec[-300:], case)
+    shutil.rmtree(wd, ignore_errors=True)
+    return res
+
+
+C_REPLAY = ("mkdir -p sysroot/include && ln -sf $CHIBICC sysroot/chibicc\n"
+            "sysroot/chibicc -cc1 -E $(cat opts.txt) -cc1-input src/main.c src/main.c > got.txt 2> err.txt || exit 1\n"
+            + CMP + "\nexit 0")
+
+
+def part_c(ctx):
+    cases = list(c_cases(ctx.tier))
+    # keep the cases of one tree together (the tree is rebuilt only when it changes)
+    groups = {}
+    for c in cases:
+        groups.setdefault(c[:4], []).append(c)
+    keys = sorted(groups, key=repr)
+    ntask = core.NPROC * 4
+    tasks = []
+    for i in range(ntask):
+        cs = [c for k in keys[i::ntask] for c in groups[k]]
+        if cs:
+            tasks.append((ctx.chibicc, os.path.join(ctx.work, "c_%d" % i), cs))
+    agg = {"n": 0, "judged": 0, "disagree": 0, "ref_rejected": 0, "undef": 0, "runs": 0}
+    outcomes = set()
+    dis = None
+    for r in core.pmap(c_task, tasks):
+        for k in agg:
+            agg[k] += r[k]
+        outcomes |= r["outcomes"]
+        dis = dis or r["disagree_ex"]
+        for sig, (cnt, ex) in sorted(r["viol"].items()):
+            size, files, main, opts, exp, got, st, err, case = ex
+            fl = dict(files)
+            fl["src/main.c"] = main
+            fl["opts.txt"] = " ".join(opts) + "\n"
+            fl["expected.txt"] = " ".join(exp) + "\n"
+            fl["observed.txt"] = "status=%s\n%s\n%s\n" % (st, " ".join(got or []), err)
+            ctx.violation("C10|include|" + sig,
+                          "include resolution %s: options %s, headers in %s; expected %s, got %s (status %s)"
+                          % (case[3:6], " ".join(opts), ",".join(case[0]), " ".join(exp), " ".join(got or []), st),
+                          files=fl, replay=C_REPLAY)
+            for _ in range(cnt - 1):
+                ctx.violation("C10|include|" + sig, "")
+    if dis:
+        raise core.HarnessError("part C: model and gcc disagree on %s: model %s gcc %s" % dis)
+    if agg["judged"] < 500 or len(outcomes) < 20:
+        raise core.HarnessError("part C vacuous: %s" % agg)
+    ctx.cover(c_cases=agg["n"], c_judged=agg["judged"], c_distinct_expected_streams=len(outcomes),
+              oracle_disagreements=agg["disagree"], ref_rejected=agg["ref_rejected"], skipped_undefined=agg["undef"],
+              traces_validated_against_impl=agg["judged"], c_process_runs=agg["runs"])
+    ctx.sample({"part": "C", "case": "h.h in {cur,d1,d3}, every copy chains with #include_next <h.h>",
+                "files": c_files(("cur", "d1", "d3"), "next<>", ["d1", "d2", "sys", "d3"], None),
+                "main": c_main("twice", '"h.h"')})
+
+
+# =====================================================================================================
+# Part D: re-inclusion shortcuts (#pragma once, include-guard detection)
+# =====================================================================================================
+D_BATCH = 120
+D_OPENERS = {"ifndef": "#ifndef %s", "if!defined": "#if !defined %s", "if!defined()": "#if !defined(%s)"}
+
+
+def d_shapes():
+    """(lead text?, #pragma once position, guard opener, #define kind, guard's own #else/#elif, body, trailer)"""
+    for lead in (0, 1):
+        for once in ("none", "top", "in", "end"):
+            for trail in ("none", "text", "ifndef2", "if1"):
+                if once != "in":
+                    yield (lead, once, "none", "none", "none", "plain", trail)
+                for opener in D_OPENERS:
+                    for define in ("G", "none", "other"):
+                        for mid in ("none", "else", "elif"):
+                            for body in ("plain", "nested"):
+                                yield (lead, once, opener, define, mid, body, trail)
+
+
+def d_header(shape, k):
+    lead, once, opener, define, mid, body, trail = shape
+    G = "G%d" % k
+    o = []
+    if once == "top":
+        o.append("#pragma once")
+    if lead:
+        o.append("L")
+    if opener != "none":
+        o.append(D_OPENERS[opener] % G)
+        if define == "G":
+            o.append("#define " + G)
+        elif define == "other":
+            o.append("#define H%d" % k)
+    if once == "in":
+        o.append("#pragma once")
+    o.append("B")
+    if body == "nested":
+        o += ["#ifdef %s" % G, "N1", "#else", "N2", "#endif", "#if 0", "N3", "#endif", "B2"]
+    if opener != "none":
+        if mid == "else":
+            o += ["#else", "X"]
+        elif mid == "elif":
+            o += ["#elif 1", "X"]
+        o.append("#endif")
+    if trail == "text":
+        o.append("T")
+    elif trail == "ifndef2":
+        o += ["#ifndef Q%d" % k, "C", "#endif"]
+    elif trail == "if1":
+        o += ["#if 1", "C", "#endif"]
+    if once == "end":
+        o.append("#pragma once")
+    return "\n".join(o) + "\n"
+
+
+D_MAINS = [(pre, n, between, sp) for pre in (0, 1) for n in (2, 3) for between in ("none", "undef")
+           for sp in ("same", "dotslash", "angle")]
+
+
+def d_main(mainv, k):
+    pre, n, between, sp = mainv
+    G = "G%d" % k
+    o = []
+    if pre:
+        o.append("#define " + G)
+    for i in range(n):
+        if i:
+            o.append("I%d" % i)
+            if between == "undef":
+                o.append("#undef " + G)
+        name = "h%d.h" % k
+        if i == 0 or sp == "same":
+            o.append('#include "%s"' % name)
+        elif sp == "dotslash":
+            o.append('#include "./%s"' % name)
+        else:
+            o.append("#include <%s>" % name)
+    return "\n".join(o) + "\n"
+
+
+def d_sig(shape, mainv, exp, st, got):
+    lead, once, opener, define, mid, body, trail = shape
+    dis = []
+    if opener == "none":
+        dis.append("no-guard")
+    else:
+        if lead:
+            dis.append("text-before-guard")
+        if define != "G":
+            dis.append("guard-macro-not-defined-by-file")
+        if mid != "none":
+            dis.append("guard-has-#" + mid)
+        if trail == "text":
+            dis.append("text-after-#endif")
+        elif trail != "none":
+            dis.append("second-conditional-after-#endif")
+    if st != 0:
+        dev = "crash" if isinstance(st, int) and st < 0 else "rejected"
+    else:
+        got = got or []
+        if len(got) < len(exp):
+            dev = "inclusion-suppressed"
+        elif len(got) > len(exp):
+            dev = "suppressed-file-included-again"
+        else:
+            dev = "wrong-tokens"
+    return "%s|once=%s|%s|G-%s|%s" % (opener, once, "+".join(dis) or "proper-guard",
+                                      {"none": "kept", "undef": "undefined-between"}[mainv[2]] + ("+predefined" if mainv[0] else ""),
+                                      dev)
+
+
+def d_task(args):
+    chibicc, wd, cases = args
+    inc = os.path.join(wd, "inc")
+    res = {"n": 0, "judged": 0, "disagree": 0, "undef": 0, "viol": {}, "disagree_ex": None, "runs": 0,
+           "suppressed_expected": 0, "reincluded_expected": 0}
+    for bi, batch in enumerate(core.chunks(cases, D_BATCH)):
+        shutil.rmtree(wd, ignore_errors=True)
+        os.makedirs(inc)
+        files = {}
+        items = []
+        for j, (shape, mainv) in enumerate(batch):
+            res["n"] += 1
+            if shape[1] != "none" and mainv[3] == "dotslash":
+                res["undef"] += 1       # file identity under #pragma once for two spellings is implementation-defined
+                continue
+            k = len(items)
+            h = d_header(shape, k)
+            files["/inc/h%d.h" % k] = h
+            with open(os.path.join(inc, "h%d.h" % k), "w") as f:
+                f.write(h)
+            items.append((shape, mainv, d_main(mainv, k), h))
+        texts = [it[2] for it in items]
+        mtxt = "".join("S%d\n%s" % (k, t) for k, t in enumerate(texts)) + "S%d\n" % len(texts)
+        allf = dict(files)
+        allf["/inc/b.c"] = mtxt
+        exp_all = segments(" ".join(M.Cpp(allf, ["/inc"]).run("/inc/b.c")), len(texts))
+        run_c = lambda s, o, c: cc_E(chibicc, s, o, c)
+        r_c = run_batch(run_c, inc, texts, opts=["-I" + inc])
+        r_g = run_batch(lambda s, o, c: gcc_E(s, o, c), inc, texts, opts=["-I" + inc])
+        res["runs"] += 1
+        for k, ((shape, mainv, txt, h), exp, (sc, tc, ec), (sg, tg, eg)) in enumerate(zip(items, exp_all, r_c, r_g)):
+            if sg != 0 or tg != exp:
+                res["disagree"] += 1
+                res["disagree_ex"] = res["disagree_ex"] or (shape, mainv, h, txt, exp, tg)
+                continue
+            res["judged"] += 1
+            once_text = len([t for t in exp if t == "B"])
+            res["suppressed_expected" if once_text < mainv[1] else "reincluded_expected"] += 1
+            if sc == 0 and tc == exp:
+                continue
+            sig = d_sig(shape, mainv, exp, sc, tc)
+            v = res["viol"].setdefault(sig, [0, None])
+            v[0] += 1
+            size = len(h) + len(txt)
+            if v[1] is None or size < v[1][0]:
+                # stand-alone rendering of this case (header renamed to index 0)
+                h0, m0 = d_header(shape, 0), d_main(mainv, 0)
+                v[1] = (size, h0, m0, exp, tc, str(sc), ec)
+    shutil.rmtree(wd, ignore_errors=True)
+    return res
+
+
+D_REPLAY = ("$CHIBICC -cc1 -E -Iinc -cc1-input inc/m.c inc/m.c > got.txt 2> err.txt || exit 1\n" + CMP + "\nexit 0")
+
+
+def part_d(ctx):
+    cases = [(s, m) for s in d_shapes() for m in D_MAINS]
+    ntask = core.NPROC * 2
+    tasks = [(ctx.chibicc, os.path.join(ctx.work, "d_%d" % i), cases[i::ntask]) for i in range(ntask)]
+    agg = {"n": 0, "judged": 0, "disagree": 0, "undef": 0, "runs": 0, "suppressed_expected": 0, "reincluded_expected": 0}
+    dis = None
+    for r in core.pmap(d_task, tasks):
+        for k in agg:
+            agg[k] += r[k]
+        dis = dis or r["disagree_ex"]
+        for sig, (cnt, ex) in sorted(r["viol"].items()):
+            size, h0, m0, exp, got, st, err = ex
+            ctx.violation("C10|reinclude|" + sig,
+                          "re-inclusion: header\n%s\nincluded by\n%s\nexpected (textual inclusion / #pragma once) %s, got %s (status %s)"
+                          % (h0, m0, " ".join(exp), " ".join(got or []), st),
+                          files={"inc/h0.h": h0, "inc/m.c": m0, "expected.txt": " ".join(exp) + "\n",
+                                 "observed.txt": "status=%s\n%s\n%s\n" % (st, " ".join(got or []), err)},
+                          replay=D_REPLAY)
+            for _ in range(cnt - 1):
+                ctx.violation("C10|reinclude|" + sig, "")
+    if dis:
+        raise core.HarnessError("part D: model and gcc disagree: shape %s main %s\n%s\n%s\nmodel %s gcc %s" % dis)
+    if agg["judged"] < 1000 or not agg["suppressed_expected"] or not agg["reincluded_expected"]:
+        raise core.HarnessError("part D vacuous: %s" % agg)
+    ctx.cover(d_cases=agg["n"], d_judged=agg["judged"], d_file_shapes=len(list(d_shapes())), d_include_scripts=len(D_MAINS),
+              d_expected_suppressed=agg["suppressed_expected"], d_expected_reincluded=agg["reincluded_expected"],
+              oracle_disagreements=agg["disagree"], skipped_undefined=agg["undef"],
+              traces_validated_against_impl=agg["judged"])
+    sh = (0, "none", "ifndef", "G", "else", "plain", "text")
+    ctx.sample({"part": "D", "shape": list(sh), "header": d_header(sh, 0), "main": d_main((0, 2, "none", "same"), 0)})
+
+
+# =====================================================================================================
+# Part E: -include / -D / -U orders
+# =====================================================================================================
+E_FILES = {
+    "a.h": "#define X 5\nA X\n",
+    "b.h": "#undef X\nB X\n",
+    "g.h": "#ifndef GG\n#define GG\nGT X\n#endif\n",
+    "inc/c.h": "#ifdef X\nC X\n#else\nCN\n#endif\n#define Y 7\n",
+    "m.c": "M X Y\n#ifdef X\nDEF\n#else\nUNDEF\n#endif\n#if X == 2\nTWO\n#endif\n#include \"g.h\"\n#include \"a.h\"\nZ X\n"
+           "W F(8)\n#ifdef F\nFDEF\n#endif\n",
+}
+E_OPTS = [("D", "X", None, 0), ("D", "X", "2", 0), ("D", "X", "3", 1), ("D", "Y", "X", 0), ("D", "F(x)", "x+Y", 0),
+          ("U", "X", None, 0),
+          ("U", "X", None, 1), ("include", "a.h"), ("include", "b.h"), ("include", "g.h"), ("include", "c.h")]
+
+
+E_LABELS = {"M": "object-like-macro-use", "DEF": "#ifdef", "UNDEF": "#ifdef", "TWO": "#if-value", "GT": "guarded-header",
+            "A": "-include-or-#include-a.h", "B": "-include-b.h", "C": "-include-via-I", "CN": "-include-via-I",
+            "Z": "macro-after-headers", "W": "function-like-macro-from-D", "FDEF": "#ifdef-function-like-macro-from-D"}
+
+
+def e_argv(seq):
+    o = []
+    for s in seq:
+        if s[0] == "include":
+            o += ["-include", s[1]]
+        elif s[0] == "D":
+            a = s[1] + ("=" + s[2] if s[2] is not None else "")
+            o += ["-D", a] if s[3] else ["-D" + a]
+        else:
+            o += ["-U", s[1]] if s[3] else ["-U" + s[1]]
+    return o
+
+
+def e_as_file(seq):
+    """The same directives written in a file: all -D/-U in order, then the -include files in order, then m.c."""
+    o = []
+    for s in seq:
+        if s[0] == "D":
+            o.append("#define %s %s" % (s[1], "1" if s[2] is None else s[2]))
+        elif s[0] == "U":
+            o.append("#undef " + s[1])
+    for s in seq:
+        if s[0] == "include":
+            o.append('#include "%s"' % s[1])
+    return "\n".join(o + ['#include "m.c"']) + "\n"
+
+
+def e_task(args):
+    chibicc, wd, seqs = args
+    shutil.rmtree(wd, ignore_errors=True)
+    os.makedirs(os.path.join(wd, "inc"))
+    for k, v in E_FILES.items():
+        with open(os.path.join(wd, k), "w") as f:
+            f.write(v)
+    res = {"n": 0, "judged": 0, "disagree": 0, "ref_rejected": 0, "viol": {}, "disagree_ex": None, "outcomes": set()}
+    vfiles = {"/w/" + k: v for k, v in E_FILES.items()}
+    for seq in seqs:
+        for ipos in (0, 1):
+            res["n"] += 1
+            eq = e_as_file(seq)
+            vf = dict(vfiles)
+            vf["/w/eq.c"] = eq
+            try:
+                exp = M.Cpp(vf, ["/w/inc"]).run("/w/eq.c")
+            except (M.Undef, M.Reject):
+                res["ref_rejected"] += 1
+                continue
+            opts = e_argv(seq)
+            opts = ["-Iinc"] + opts if ipos == 0 else opts + ["-Iinc"]
+            sg, og, eg = core.run_limited(GCC + opts + ["m.c"], cwd=wd, timeout=20)
+            if sg != 0:
+                res["ref_rejected"] += 1
+                continue
+            if lex(og) != exp:
+                res["disagree"] += 1
+                res["disagree_ex"] = res["disagree_ex"] or (opts, exp, lex(og))
+                continue
+            res["judged"] += 1
+            res["outcomes"].add(tuple(exp))
+            sc, oc, ec = core.run_limited([chibicc, "-cc1", "-E"] + opts + ["-cc1-input", "m.c", "m.c"], cwd=wd, timeout=20)
+            got = lex(oc) if sc == 0 else None
+            # differential: the same directives written in a file, through the same binary
+            with open(os.path.join(wd, "eq.c"), "w") as f:
+                f.write(eq)
+            s2, o2, e2 = core.run_limited([chibicc, "-cc1", "-E", "-Iinc", "-cc1-input", "eq.c", "eq.c"], cwd=wd, timeout=20)
+            got2 = lex(o2) if s2 == 0 else None
+            if got == exp and got2 == exp:
+                continue
+            if got != exp:
+                dev = ("rejected" if got is None else "differs-from-directives-in-file" if got2 == exp else "wrong-tokens")
+            else:
+                dev = "directives-in-file-wrong"
+            # the line of m.c / the -include'd header in which the first difference appears names the construct
+            bad = got if got != exp else got2
+            at = "whole-unit"
+            if bad is not None:
+                i = next((j for j in range(min(len(exp), len(bad))) if exp[j] != bad[j]), min(len(exp), len(bad)))
+                at = next((E_LABELS[t] for t in reversed(exp[:i + 1]) if t in E_LABELS), "start")
+            sig = "%s|%s" % (at, dev)
+            v = res["viol"].setdefault(sig, [0, None])
+            v[0] += 1
+            if v[1] is None or len(opts) < len(v[1][0]):
+                v[1] = (opts, exp, got if got != exp else got2, str(sc), ec[-300:], eq)
+    shutil.rmtree(wd, ignore_errors=True)
+    return res
+
+
+E_REPLAY = ("$CHIBICC -cc1 -E $(cat opts.txt) -cc1-input m.c m.c > got.txt 2> err.txt || exit 1\n" + CMP + "\n"
+            "$CHIBICC -cc1 -E -Iinc -cc1-input eq.c eq.c > got.txt 2> err.txt || exit 1\n" + CMP + "\nexit 0")
+
+
+def part_e(ctx):
+    L = 3 if ctx.tier == "quick" else 4
+    seqs = [s for n in range(0, L + 1) for s in itertools.product(E_OPTS, repeat=n)]
+    ntask = core.NPROC * 2
+    tasks = [(ctx.chibicc, os.path.join(ctx.work, "e_%d" % i), seqs[i::ntask]) for i in range(ntask)]
+    agg = {"n": 0, "judged": 0, "disagree": 0, "ref_rejected": 0}
+    outcomes = set()
+    dis = None
+    for r in core.pmap(e_task, tasks):
+        for k in agg:
+            agg[k] += r[k]
+        outcomes |= r["outcomes"]
+        dis = dis or r["disagree_ex"]
+        for sig, (cnt, ex) in sorted(r["viol"].items()):
+            opts, exp, got, st, err, eq = ex
+            fl = dict(E_FILES)
+            fl.update({"eq.c": eq, "opts.txt": " ".join(opts) + "\n", "expected.txt": " ".join(exp) + "\n",
+                       "observed.txt": "status=%s\n%s\n%s\n" % (st, " ".join(got or []), err)})
+            ctx.violation("C10|options|" + sig,
+                          "options %s: expected %s, got %s (status %s)" % (" ".join(opts), " ".join(exp), " ".join(got or []), st),
+                          files=fl, replay=E_REPLAY)
+            for _ in range(cnt - 1):
+                ctx.violation("C10|options|" + sig, "")
+    if dis:
+        raise core.HarnessError("part E: model and gcc disagree on %s: model %s gcc %s" % dis)
+    if agg["judged"] < 500 or len(outcomes) < 10:
+        raise core.HarnessError("part E vacuous: %s" % agg)
+    ctx.cover(e_option_sequences=agg["n"], e_judged=agg["judged"], e_distinct_expected_streams=len(outcomes),
+              oracle_disagreements=agg["disagree"], ref_rejected=agg["ref_rejected"],
+              traces_validated_against_impl=agg["judged"], e_max_options=L)
+    ctx.sample({"part": "E", "options": e_argv((("D", "X", "2", 0), ("include", "b.h"), ("U", "X", None, 1))),
+                "same_directives_in_file": e_as_file((("D", "X", "2", 0), ("include", "b.h"), ("U", "X", None, 1)))})
+
+
 def run(ctx):
+    import time
     quick = ctx.tier == "quick"
-    if os.environ.get("C10_PARTS", "ABCDE").find("A") >= 0:
-        part_a(ctx, int(os.environ.get("C10_N", 5 if quick else 6)), 3 if quick else 4, 1 if quick else 2)
-    if os.environ.get("C10_PARTS", "ABCDE").find("B") >= 0:
-        part_b(ctx)
-    ctx.assume("gcc -E -P (gcc 12) is the second oracle: a case is judged only when the Python model and gcc agree")
+    parts = os.environ.get("C10_PARTS", "ABCDE")          # debugging aid only; the default runs everything
+    n = int(os.environ.get("C10_N", 5))                  # full alphabet; C10_N=6 is ~25 M sequences (~80 CPU-minutes)
+    plan = [("A", lambda: part_a(ctx, n, 0 if quick else 6, 3 if quick else 4, 4 if quick else 5, 1 if quick else 2)), ("B", lambda: part_b(ctx)),
+            ("C", lambda: part_c(ctx)), ("D", lambda: part_d(ctx)), ("E", lambda: part_e(ctx))]
+    secs = {}
+    # the cheap parts first so that a deadline can only cut the big sequence enumeration short
+    for name, fn in sorted(plan, key=lambda p: p[0] == "A"):
+        if name not in parts:
+            continue
+        if ctx.out_of_time(reserve=15):
+            ctx.incomplete("part %s not run: deadline" % name)
+            continue
+        t = time.time()
+        fn()
+        secs[name] = round(time.time() - t, 1)
+    ctx.cover(part_seconds=secs)
+    ctx.assume("gcc -E -P -nostdinc (gcc 12) is the second oracle: a case is judged only when the Python model "
+               "(models/c10_model.py) and gcc produce the same token stream")
+    ctx.assume("#include_next in a file that was not found through the search chain (primary file: not judged; "
+               "file found in the includer's directory: search starts at the head of the chain, as gcc and clang do)")
+    ctx.assume("file identity of one header reached through two spellings under #pragma once is implementation-defined: not judged")
+    ctx.assume("#if: right shift of negative values, signed overflow, out-of-range shifts, division by zero and "
+               "character constants outside the basic set are not judged (skipped_undefined)")
